@@ -240,6 +240,27 @@ void do_op(string op, string ctx) {
   case "wview":
     wview();
     break;
+  case "cother":   // cother:T:NAME   call_other by another object
+    o = ob_of(f[1]);
+    vlog("\"e\":\"Call\",\"origin\":\"call_other\",\"name\":" + jq(f[2]));
+    if (o) rest = catch(call_other(o, f[2], 1));
+    vlog("\"e\":\"CallDone\"");
+    break;
+  case "cefun":    // cefun:T:NAME    efun callback (map_array by function name)
+    o = ob_of(f[1]);
+    vlog("\"e\":\"Call\",\"origin\":\"efun\",\"name\":" + jq(f[2]));
+    if (o) rest = catch(map_array(({ 1 }), f[2], o));
+    vlog("\"e\":\"CallDone\"");
+    break;
+  case "csched":   // csched:T:NAME   T schedules call_out(NAME, 1) on itself
+    o = ob_of(f[1]);
+    vlog("\"e\":\"Call\",\"origin\":\"call_out\",\"name\":" + jq(f[2]));
+    if (o) rest = catch(o->sched(f[2]));
+    break;
+  case "xcall":    // xcall:O:FUNCTION[:ARGOBJ]   call a function of a generated object
+    o = ob_of(f[1]);
+    if (o) { if (sizeof(f) > 3) call_other(o, f[2], ob_of(f[3])); else call_other(o, f[2]); }
+    break;
   case "clr":
     map_delete(scripts, f[1]);
     break;
